@@ -565,6 +565,19 @@ class Schema:
             return SV("gen", x=[Bag([x], z3.Select(dom, x), sv_tuple([SV("val", x), SV("val", z3.Select(obj.t, x))]))])
         if name == "keys":
             return sv_set(dom)
+        if name == "irange":
+            # sortedcontainers.SortedDict.irange(min, max, inclusive=(True, False)) (assumed contract): exactly the
+            # integer keys k with min <= k < max, in increasing order
+            inc = kwargs.get("inclusive")
+            if inc is None or inc.k != "tuple" or len(inc.x) != 2:
+                raise Unsupported("irange without explicit inclusive=(True, False)")
+            c0, c1 = z3.simplify(eng.truthy(inc.x[0], st)), z3.simplify(eng.truthy(inc.x[1], st))
+            if not (z3.is_true(c0) and z3.is_false(c1)):
+                raise Unsupported("irange inclusive flags other than (True, False)")
+            lo, hi = eng.as_int(args[0], st), eng.as_int(args[1], st)
+            x = fresh("k", Val)
+            return SV("gen", x=[Bag([x], z3.And(z3.Select(dom, x), is_VInt(x), lo <= ival(x), ival(x) < hi),
+                                    sv_int(ival(x)), order=ival(x))])
         if name == "clear":
             new = SV("dict", z3.K(Val, VNone) if vk == "val" else z3.K(Val, EmptySet), x=(EmptySet, vk), cls=obj.cls)
             self._wb(obj, new, st)
